@@ -642,6 +642,17 @@ def garbage_sees_deleted(run, fx, rule='DETACH'):
             t = an.strip(e['c'][0])
             if t['k'] == 'MemberExpr' and '_contexts' in an.render(t):
                 flags.add(t.get('d').split('::')[-1])
+    # ... and nothing takes the mark back: the only way a context loses it is to be replaced by a fresh one (NEXT / COPY_NEXT construct a
+    # new `context`); a store of false to the flag in any arm (INSERT shares the context of the slot in front of it) re-arms the TEMP_COPY
+    for fq_ in (an, aa):
+        for _, e in fq_.elements():
+            if e['k'] == 'BinaryOperator' and e['op'] == '=' and fq_.strip_all_casts(fq_.N(e['c'][1])).get('v') in (0, False):
+                t = fq_.strip(e['c'][0])
+                if t['k'] == 'MemberExpr' and '_contexts' in fq_.render(t) and (t.get('d') or '').split('::')[-1] in flags:
+                    run.violated(rule, inst, fq_.loc(e), '%s clears the per-slot flag `%s` that its DELETE arm sets (%s): a slot whose code deletes it counts as live again, decoder::apply_analysis '
+                                 'gives it a TEMP_COPY when it is changed and referenced, the copy takes its place in the slot map and SlotMap::collectGarbage never hands the deleted slot to '
+                                 'Segment::freeSlot -- it stays in its parent\'s child chain' % (fq_.q.split('::')[-1], (t.get('d') or '').split('::')[-1], fq_.render(e)))
+                    return
     fs = dom.facts_at(aa, ins[0]['i'])
     guard = [f for f in fs if f[1] == '==' and f[2] == '0' and any(f[0].endswith('.' + fl) or f[0].endswith('->' + fl) for fl in flags)]
     if guard:
@@ -786,6 +797,110 @@ def actionseq_exec(run, vm, maxn=3, maxlen=3):
     return cases, None, fresh_prob
 
 
+def putcopy_exec(run, vm, maxn=3):
+    """PUT_COPY by bounded execution (rules/ordint.py): the handler (body of inc/opcodes.h, Slot accessors from their own CFGs; memcpy of a
+    whole Slot modelled as a copy of every member) is interpreted on streams of 2..maxn slots, every (current slot, source slot) pair,
+    the source carrying every combination of the DELETED / COPIED marks (a rule may copy from a slot it has already deleted -- fonts
+    that move a glyph do exactly that) and being attached to a parent or not.  Afterwards the current slot is a live slot of the stream:
+    neither mark is set on it (collectGarbage would free a slot that is still linked), its place in the stream (next, prev, index) and
+    its own user-attribute block are what they were, it has no children, and if it names a parent it is in that parent's child chain."""
+    import itertools
+    from . import ordint as O
+    fx = vm.fx
+    PS, PM, PG = 'graphite2::Slot::', 'graphite2::SlotMap::', 'graphite2::Segment::'
+    srec = fx.record('graphite2::Slot')
+    DEL, COPIED = 1, 4
+    for e_ in fx.raw['enums'].values():
+        for c_ in e_.get('consts', []):
+            if c_.get('n') == 'DELETED':
+                DEL = c_.get('v')
+            if c_.get('n') == 'COPIED':
+                COPIED = c_.get('v')
+    h = vm.handlers['put_copy']
+
+    def mkslot(k):
+        s_ = O.Rec()
+        for f in srec['fields']:
+            s_[PS + f['n']] = O.Ptr(None) if f.get('ptr') else 0
+        s_[PS + 'm_userAttr'] = O.It(O.Vec([k * 10 + 1, k * 10 + 2]), 0)
+        s_['#'] = k
+        return s_
+
+    def memcpy(I, f, e, obj, a):
+        d_, s_ = I.rv(a[0]), I.rv(a[1])
+        if isinstance(d_, O.Ptr) and isinstance(s_, O.Ptr) and d_.rec is not None and s_.rec is not None:
+            for k_, v_ in list(s_.rec.items()):
+                if k_ != '#':
+                    d_.rec[k_] = v_
+            return d_
+        if isinstance(d_, O.It) and isinstance(s_, O.It):
+            for j_ in range(len(s_.vec.items) - s_.idx):
+                if d_.idx + j_ < len(d_.vec.items):
+                    d_.vec.items[d_.idx + j_] = s_.vec.items[s_.idx + j_]
+            return d_
+        raise AnalysisBroken('memcpy of %s from %s in put_copy' % (type(d_).__name__, type(s_).__name__))
+    cases = 0
+    for n in range(2, maxn + 1):
+        for k in range(n):
+            for j in range(n):
+                if j == k:
+                    continue
+                for fl in (0, DEL, COPIED, DEL | COPIED):
+                    for att in (False, True):
+                        slots = [mkslot(i) for i in range(n)]
+                        for i, sl in enumerate(slots):
+                            sl[PS + 'm_next'] = O.Ptr(slots[i + 1]) if i + 1 < n else O.Ptr(None)
+                            sl[PS + 'm_prev'] = O.Ptr(slots[i - 1]) if i else O.Ptr(None)
+                            sl[PS + 'm_before'] = sl[PS + 'm_after'] = sl[PS + 'm_original'] = sl[PS + 'm_index'] = i
+                        parent = mkslot(50)
+                        if att:
+                            slots[j][PS + 'm_parent'] = O.Ptr(parent)
+                            parent[PS + 'm_child'] = O.Ptr(slots[j])
+                        slots[j][PS + 'm_flags'] = fl
+                        own_attrs = slots[k][PS + 'm_userAttr']
+                        seg = O.Rec({PG + 'm_first': O.Ptr(slots[0]), PG + 'm_last': O.Ptr(slots[-1]), PG + 'm_numGlyphs': n, PG + 'm_defaultOriginal': 0})
+                        mapvec = O.Vec([O.Ptr(None)] + [O.Ptr(s_) for s_ in slots] + [O.Ptr(None)] * 2)
+                        smap = O.Rec({PM + 'segment': seg, PM + 'm_slot_map': O.It(mapvec, 0), PM + 'm_precontext': 0, PM + 'm_size': n,
+                                      PM + 'm_highwater': O.Ptr(None), PM + 'm_highpassed': False, PM + 'm_maxSize': 10})
+                        stbox = [0]
+                        reg = O.Rec({'regbank::is': O.Ptr(slots[k]), 'regbank::map': O.It(mapvec, 1 + k), 'regbank::smap': smap,
+                                     'regbank::map_base': O.It(mapvec, 1), 'regbank::direction': 0, 'regbank::flags': 0, 'regbank::status': O.LV(stbox, 0)})
+                        stack = O.Vec([0] * 8)
+                        it = O.Interp(fx, natives={'memcpy': memcpy, 'graphite2::Segment::numAttrs': lambda I, f, e, obj, a: 2})
+                        it.MAX_STEPS = 6000
+                        desc = 'PUT_COPY %+d on %d slots: current #%d, source #%d%s%s' % (j - k, n, k, j, {0: '', DEL: ' (deleted earlier in the rule)', COPIED: ' (a temporary copy)', DEL | COPIED: ' (deleted, temporary)'}[fl],
+                                                                                        ', attached' if att else '')
+                        cases += 1
+                        try:
+                            res = it.call(h, None, [O.LV([O.It(O.Vec([(j - k) & 0xFF, 0, 0]), 0)], 0), O.LV([O.It(stack, 2)], 0), O.It(stack, 2), reg])
+                        except O.Violation as v:
+                            return cases, '%s: %s (%s)' % (desc, v.what, v.loc)
+                        if res is False or res == 0 or stbox[0] != 0:
+                            continue
+                        me = slots[k]
+                        if me[PS + 'm_flags'] & (DEL | COPIED):
+                            return cases, ('%s: the current slot ends up marked %s -- it is still linked into the stream, and SlotMap::collectGarbage frees every marked slot of the map: the stream then '
+                                           'runs into the free list' % (desc, 'DELETED' if me[PS + 'm_flags'] & DEL else 'COPIED'))
+                        wn, wp = (slots[k + 1] if k + 1 < n else None), (slots[k - 1] if k else None)
+                        if me[PS + 'm_next'].rec is not wn or me[PS + 'm_prev'].rec is not wp or me[PS + 'm_index'] != k:
+                            return cases, '%s: the current slot\'s place in the stream changes (next / prev / index)' % desc
+                        if me[PS + 'm_userAttr'] is not own_attrs and not (isinstance(me[PS + 'm_userAttr'], O.It) and me[PS + 'm_userAttr'].vec is own_attrs.vec):
+                            return cases, '%s: the current slot now uses the source\'s user-attribute block' % desc
+                        if me[PS + 'm_child'].rec is not None or me[PS + 'm_sibling'].rec is not None:
+                            return cases, '%s: the current slot inherits the source\'s child / sibling links' % desc
+                        par = me[PS + 'm_parent'].rec
+                        if par is not None:
+                            c_, seen = par[PS + 'm_child'].rec, 0
+                            found = False
+                            while c_ is not None and seen < 8:
+                                found = found or c_ is me
+                                c_ = c_[PS + 'm_sibling'].rec
+                                seen += 1
+                            if not found:
+                                return cases, '%s: the current slot names #%d as its parent but is not in its child chain' % (desc, par['#'])
+    return cases, None
+
+
 def run(run):
     vm = R.get_vm(run)
     fx = vm.fx
@@ -806,6 +921,15 @@ def run(run):
             run.held('DETACH', i2_, w_, '%d abstract executions' % cases_)
     except AnalysisBroken as ex:
         run.broken('DETACH', i1_, str(ex), '')
+    ipc_ = 'PUT_COPY leaves the current slot a live, correctly linked slot (interpreted)'
+    try:
+        cases_, bad_ = putcopy_exec(run, vm)
+        if bad_:
+            run.violated('ATTACH', ipc_, vm.handlers['put_copy'].where(), bad_)
+        else:
+            run.held('ATTACH', ipc_, vm.handlers['put_copy'].where(), '%d abstract executions' % cases_)
+    except AnalysisBroken as ex:
+        run.broken('ATTACH', ipc_, str(ex), '')
     sentinel_push(run, fx)
     garbage_after_action(run)
     treewriters(run, fx)
